@@ -472,6 +472,17 @@ def oracle_eval(ctx, name, a, b, cpath):
                         res = ("unjudged",)
                     except (ZeroDivisionError, OverflowError, ValueError):
                         res = ("unjudged",)
+                    if res[0] != "unjudged" and st[0] == "expr":
+                        # conditioning probe: the same tree with every intermediate wobbled by ~1e-12
+                        ev2 = pyeval.Evaluator(UNIT_SPEC, env, perturb=1e-12)
+                        try:
+                            res2 = ("val", ev2.ev(st[1]))
+                        except pyeval.Refuse as e2:
+                            res2 = ("err", e2.kind)
+                        except (pyeval.Unjudged, ZeroDivisionError, OverflowError, ValueError):
+                            res2 = ("unjudged",)
+                        if not stable(res, res2):
+                            ev.flags.add("ill-conditioned")
                     if st[0] == "assign":
                         if st[1] in INIT_CONSTS or env.get(st[1], ("x",))[0] == "builtin":
                             continue
@@ -482,8 +493,8 @@ def oracle_eval(ctx, name, a, b, cpath):
                         continue
                     if o is None:
                         continue
-                    if res[0] == "unjudged" or ev.flags & {"nonfinite", "branch-cut", "near-integer", "zero-base", "near-singular", "extreme-magnitude"}:
-                        key = "unjudged:" + ("+".join(sorted(ev.flags & {"nonfinite", "branch-cut", "near-integer", "zero-base", "near-singular", "extreme-magnitude"})) or "not-interpreted")
+                    if res[0] == "unjudged" or ev.flags & {"nonfinite", "branch-cut", "near-integer", "zero-base", "near-singular", "extreme-magnitude", "ill-conditioned", "near-real"}:
+                        key = "unjudged:" + ("+".join(sorted(ev.flags & {"nonfinite", "branch-cut", "near-integer", "zero-base", "near-singular", "extreme-magnitude", "ill-conditioned", "near-real"})) or "not-interpreted")
                         unj[key] = unj.get(key, 0) + 1
                         continue
                     judged += 1
@@ -505,6 +516,34 @@ def oracle_eval(ctx, name, a, b, cpath):
     rep.count("oracle:evaluator judged", judged)
     for k, v in unj.items():
         rep.unjudged[k] = rep.unjudged.get(k, 0) + v
+
+
+def stable(r1, r2):
+    """do two evaluations that differ by rounding-size wobbles agree to 1e-9?"""
+    if r1[0] != r2[0]:
+        return False
+    if r1[0] == "err":
+        return r1[1] == r2[1]
+    if r1[0] != "val":
+        return True
+    a, b = r1[1], r2[1]
+    if a[0] != b[0]:
+        return False
+    def near(x, y):
+        x, y = complex(x), complex(y)
+        if any(math.isnan(t) or math.isinf(t) for t in (x.real, x.imag, y.real, y.imag)):
+            return True
+        return abs(x - y) <= 2e-10 * max(abs(x), abs(y), 1e-300)
+    if a[0] == "n":
+        return near(a[1], b[1])
+    if a[0] == "q":
+        return a[1] == b[1] and near(a[2], b[2])
+    if a[0] == "m":
+        fa = [x for r in a[1] for x in r]
+        fb = [x for r in b[1] for x in r]
+        m = max([abs(x) for x in fa] + [1e-300])
+        return len(fa) == len(fb) and all(abs(x - y) <= 2e-10 * m for x, y in zip(fa, fb))
+    return True
 
 
 def judge_value(res, o, ev, text):
